@@ -236,6 +236,7 @@ func runC02(c *core.Ctx) core.Meta {
 	c.Load(cuPkg, wfPkg, emuPkg, cdna3Pkg, driverPkg, cpPkg, instsPkg, platformPkgs[0], platformPkgs[1], platformPkgs[2], platformPkgs[3])
 	c.BuildSSA()
 	checkFlushDecisionRanges(c, "R02.18")
+	checkDirtyMarkUnconditional(c, "R02.19")
 	checkCreatedOncePerBuild(c, "R02.16", NewPkgInfo(c, cpPkg), "NewCUResourcePool", "Two kernels in flight on one GPU then share physical registers and LDS in the timing CU, which emulation (one kernel at a time per CU state) never does: the two modes diverge.")
 	pcu := NewPkgInfo(c, cuPkg)
 	pd := NewPkgInfo(c, driverPkg)
